@@ -58,9 +58,32 @@ def ref_jacobi(D, x, b, rows, omega):
     return x
 
 
+def _single(D):
+    return np.asarray(D).dtype in (np.float32, np.complex64)
+
+
+def pinv_ref(B):
+    """reference pseudo-inverse with a cut-off between the data's precision and its square root (the library's
+    LAPACK / Jacobi-SVD routines each use their own cut-off; ambiguous blocks are excluded by block_ok)"""
+    return np.linalg.pinv(np.asarray(B).astype(np.complex128 if np.iscomplexobj(B) else np.float64),
+                          rcond=1e-5 if _single(B) else 1e-10)
+
+
+def block_ok(B):
+    """no singular value in the band where 'numerically zero' depends on the routine's cut-off"""
+    B = np.asarray(B)
+    if B.size == 0:
+        return True
+    sv = np.linalg.svd(B.astype(np.complex128), compute_uv=False)
+    if sv[0] == 0:
+        return True
+    lo, hi = (1e-12, 1e-2) if _single(B) else (1e-14, 1e-6)
+    return not any(lo < v / sv[0] < hi for v in sv)
+
+
 def blocks_dinv(D, bs):
     nb = D.shape[0] // bs
-    return [np.linalg.pinv(D[k * bs:(k + 1) * bs, k * bs:(k + 1) * bs]) for k in range(nb)]
+    return [pinv_ref(D[k * bs:(k + 1) * bs, k * bs:(k + 1) * bs]) for k in range(nb)]
 
 
 def ref_block_jacobi(D, x, b, rows, omega, bs, Dinv):
@@ -119,7 +142,7 @@ def ref_schwarz(D, x, b, order, subdomains):
         if len(S) == 0:
             continue
         r = (b - D @ x)[S]
-        x[S] += np.linalg.pinv(D[np.ix_(S, S)]) @ r
+        x[S] += pinv_ref(D[np.ix_(S, S)]) @ r
     return x
 
 
@@ -369,6 +392,12 @@ def oracle_public(ctx, count):
             'gauss_seidel_nr': (lambda y: R.gauss_seidel_nr(Afmt, y, b, iterations=its, sweep=sweep, omega=om),
                                 rep(seq_orders(lambda y, o: ref_gs_nr(D, y, b, o, om)), its)),
         }
+        if not all(block_ok(D[k * bs:(k + 1) * bs, k * bs:(k + 1) * bs]) for k in range(nb)):
+            # a diagonal block with a singular value in the band where "numerically zero" depends on the
+            # pseudo-inverse routine's cut-off: the block update is not defined "to rounding" there
+            for nm in ('block_jacobi', 'block_gauss_seidel', 'cf_block_jacobi', 'fc_block_jacobi'):
+                tests.pop(nm)
+            ctx.count('oracle:block-tests-skipped-ill-conditioned-block')
         if fmt == 'csr':
             idx = np.array([rng.randrange(n) for _ in range(rng.randrange(1, n + 2))], dtype=I32)
             tests['gauss_seidel_indexed'] = (
@@ -376,7 +405,7 @@ def oracle_public(ctx, count):
                 rep(lambda y: _seq(y, [lambda v, o=o: ref_gs(D, v, b, [int(idx[k]) for k in o])
                                        for o in orders(sweep, len(idx))]), its))
             subs = [sorted(set(int(j) for j in A.indices[A.indptr[i]:A.indptr[i + 1]])) for i in range(n)]
-            if all(len(sd) > 0 for sd in subs):      # Schwarz needs non-empty subdomains (no empty rows)
+            if all(len(sd) > 0 for sd in subs) and all(block_ok(D[np.ix_(sd, sd)]) for sd in subs):   # non-empty, well-posed subdomains
               tests['schwarz'] = (lambda y: R.schwarz(sp.csr_array(A.copy()), y, b, iterations=its, sweep=sweep),
                                   rep(lambda y: _seq(y, [lambda v, o=o: ref_schwarz(D, v, b, o, subs)
                                                          for o in orders(sweep, n)]), its))
